@@ -92,10 +92,12 @@ func checkMain(args []string) int {
 		cfg BuildConfig
 	}
 	var progs []loaded
+	loadStart := time.Now()
 	for _, bc := range configsFor(tier) {
 		p, err := Load(repoDir(), bc)
 		progs = append(progs, loaded{p, err, bc})
 	}
+	loadSecs := time.Since(loadStart).Seconds()
 	rc := 0
 	for _, id := range ids {
 		f, ok := ruleFns[id]
@@ -104,9 +106,8 @@ func checkMain(args []string) int {
 			return 2
 		}
 		r := &runResult{ID: id, Tier: tier, Seed: seed, Start: start, Extra: map[string]interface{}{}}
-		if len(ids) > 1 {
-			r.Start = time.Now()
-		}
+		r.Start = time.Now()
+		r.LoadSeconds = loadSecs
 		for _, l := range progs {
 			if l.err != nil {
 				r.LoadErrors = append(r.LoadErrors, fmt.Sprintf("%s: %v", l.cfg, l.err))
